@@ -15,8 +15,9 @@ from .kernel.draws import Draws, derive_seed
 from .minimise import Minimiser
 
 ROOT = os.path.dirname(os.path.dirname(os.path.abspath(__file__)))
-EVIDENCE_DIR = os.path.join(ROOT, "evidence")
-REPLAY_DIR = os.path.join(ROOT, "replays")
+# overridable for development tools (mutants pass) so that they never touch the committed evidence
+EVIDENCE_DIR = os.environ.get("VERIF_EVIDENCE_DIR") or os.path.join(ROOT, "evidence")
+REPLAY_DIR = os.environ.get("VERIF_REPLAY_DIR") or os.path.join(ROOT, "replays")
 
 _PROP = None  # set in the parent before the pool forks
 
